@@ -279,3 +279,38 @@ func init() {
 		mutant{Name: "temporaries-typed-from-the-static-source-type", Prop: "C04", File: "interp/run.go", Old: "\t\t\tv := s(f)\n\t\t\tt[i] = reflect.New(v.Type()).Elem()\n\t\t\tt[i].Set(v)\n", New: "\t\t\tv := s(f)\n\t\t\tt[i] = reflect.New(n.child[sbase+i].typ.TypeOf()).Elem()\n\t\t\tt[i].Set(v)\n", Rule: "R04.22", Key: "assign/closure#6/temporary#2/typed-by-the-value"},
 	)
 }
+
+func init() {
+	addMutants(
+		// D94 reverted
+		mutant{Name: "breakpoints-set-by-generating-code", Prop: "C19", File: "interp/debugger.go", Old: "n.action != aNop && n.gen != nil {", New: "n.action != aNop && getExec(n) != nil {", Rule: "R19.13", Key: "Debugger.SetBreakpoints/generates-no-code"},
+	)
+}
+
+func init() {
+	addMutants(
+		// D97 reverted
+		mutant{Name: "not-nil-always-reads-the-left-operand", Prop: "C02", File: "interp/cfg.go", Old: "\t\t\t\t\t\tn.gen = isNotNilChild(operand)\n", New: "\t\t\t\t\t\tn.gen = isNotNilChild(0)\n", Rule: "R02.17", Key: "cfg/nil-comparison/generator#2/selected-by-the-nil-operand"},
+	)
+}
+
+func init() {
+	addMutants(
+		// D98 reverted
+		mutant{Name: "func-field-call-in-return-gets-a-temporary", Prop: "C01", File: "interp/cfg.go", Old: "\t\t\t\t\t\tif directReturn(n, sc.def) {\n\t\t\t\t\t\t\t// The results are stored directly in the frame location\n\t\t\t\t\t\t\t// of the outputs of the current function (see callBin).\n\t\t\t\t\t\t\tn.findex = childPos(n)\n\t\t\t\t\t\t} else {\n\t\t\t\t\t\t\tn.findex = sc.add(n.typ)\n\t\t\t\t\t\t\tfor i := 1; i < len(funcType.ret); i++ {\n\t\t\t\t\t\t\t\tsc.add(funcType.ret[i])\n\t\t\t\t\t\t\t}\n\t\t\t\t\t\t}\n", New: "\t\t\t\t\t\tn.findex = sc.add(n.typ)\n\t\t\t\t\t\tfor i := 1; i < len(funcType.ret); i++ {\n\t\t\t\t\t\t\tsc.add(funcType.ret[i])\n\t\t\t\t\t\t}\n", Rule: "R01.32", Key: "cfg/compiled-call/result-slot#1/not-when-stored-by-position"},
+	)
+}
+
+func init() {
+	addMutants(
+		// D99 reverted
+		mutant{Name: "forwarded-call-returns-its-first-value-only", Prop: "C01", File: "interp/run.go", Old: "\t\tcase len(operands) > 1:\n\t\t\t// Store each value returned by the call in the corresponding result.\n\t\t\tn.exec = func(f *frame) bltn {\n\t\t\t\tfor i, value := range values {\n\t\t\t\t\tf.data[i].Set(value(f))\n\t\t\t\t}\n\t\t\t\treturn nil\n\t\t\t}\n", New: "", Rule: "R01.33", Key: "_return/single-operand/can-set-several-results"},
+	)
+}
+
+func init() {
+	addMutants(
+		// D100 reverted
+		mutant{Name: "switch-tag-converted-to-the-case-type", Prop: "C02", File: "interp/run.go", Old: "\t\t\t\tif !v1.Type().AssignableTo(v0.Type()) {\n\t\t\t\t\t// The case value is converted to the type of the tag.\n\t\t\t\t\tif !v1.CanConvert(v0.Type()) {\n\t\t\t\t\t\tcontinue\n\t\t\t\t\t}\n\t\t\t\t\tv1 = v1.Convert(v0.Type())\n\t\t\t\t}\n", New: "\t\t\t\tif !v0.Type().AssignableTo(v1.Type()) {\n\t\t\t\t\tif !v0.CanConvert(v1.Type()) {\n\t\t\t\t\t\tcontinue\n\t\t\t\t\t}\n\t\t\t\t\tv0 = v0.Convert(v1.Type())\n\t\t\t\t}\n", Rule: "R02.18", Key: "_case/closure#7/tag-never-converted"},
+	)
+}
